@@ -14,7 +14,7 @@ import (
 // GRPCProfile is the C10 profile: services with a gRPC transport only.
 func GRPCProfile() Profile {
 	return Profile{Name: "grpc", MaxServices: 2, MaxMethods: 3, MaxFields: 5, Runtime: true,
-		Validations: true, Defaults: true, UserTypes: true, Aliases: true, Recursive: true, Maps: true, Bytes: true, GRPC: true}
+		Validations: true, Defaults: true, UserTypes: true, Aliases: true, Recursive: true, Maps: true, Bytes: true, GRPC: true, Unions: true}
 }
 
 // GRPCDesign generates designs whose services are served over gRPC: payloads
@@ -271,6 +271,27 @@ func assignTags(t *rapid.T, d *m.Design) {
 				f.Tag = nums[i]
 				walk(f.Attr)
 			}
+			// the alternatives of a oneof share the numbering space of the
+			// enclosing message: renumber them after the message's own fields
+			if a.Type.Kind == m.Object {
+				next := 0
+				for _, f := range a.Type.Fields {
+					if f.Tag > next {
+						next = f.Tag
+					}
+				}
+				for _, f := range a.Type.Fields {
+					if f.Attr != nil && f.Attr.Type != nil && f.Attr.Type.Kind == m.Union {
+						for _, alt := range f.Attr.Type.Fields {
+							next++
+							for next >= 19000 && next <= 19999 {
+								next++
+							}
+							alt.Tag = next
+						}
+					}
+				}
+			}
 		case m.Array:
 			walk(a.Type.Elem)
 		case m.Map:
@@ -382,7 +403,15 @@ func clamp32(d *m.Design, a *m.Attr, v value.V, depth int) value.V {
 			}
 			v.A = out
 		}
-	case m.Object, m.Union:
+	case m.Union:
+		if v.K == "union" && len(v.A) == 1 {
+			for _, f := range res.Type.Fields {
+				if f.Name == v.S {
+					v.A = []value.V{clamp32(d, f.Attr, v.A[0], depth+1)}
+				}
+			}
+		}
+	case m.Object:
 		if v.K == "object" {
 			out := make([]value.Field, len(v.O))
 			for i, f := range v.O {
